@@ -154,7 +154,10 @@ CHECKS["C05"] = {
     "parts": [
         {"name": "block-paths", "pkg": "sm4", "run": "TestVX_C05_Paths", "kind": "internal", "files": ["sm4/C05_int_test.go"], "shards": 16},
         {"name": "block-public", "pkg": "sm4", "run": "TestVX_C05_Public", "public_files": SM4P + ["sm4/C05_pub_test.go"], "shards": 4},
+        {"name": "block-public-generic", "variant": "generic", "pkg": "sm4", "run": "TestVX_C05_Public", "public_files": SM4P + ["sm4/C05_pub_test.go"],
+         "shards": 4, "env": {"VX_PART": "block-public-generic"}},
     ],
+    "prepare": {"generic": [["python3", "{verif}/tools/prep_generic.py", "{repo}"]]},
     "deadline": {"quick": 150, "thorough": 2400},
 }
 
